@@ -14,7 +14,9 @@ pub(crate) struct SpecialPrefixBackend<B: Backend> {
 }
 
 lazy_static! {
-    static ref RE: Regex = Regex::new("^item([0-9]+)").unwrap();
+    // only the canonical spelling of a small index is a tuple item name; anything else
+    // (`item1x`, `item007`, `item99999999999`) is an ordinary identifier
+    static ref RE: Regex = Regex::new("^item(0|[1-9][0-9]{0,4})$").unwrap();
 }
 
 #[derive(Derivative)]
